@@ -29,8 +29,8 @@ CHECKS["C05"] = dict(
 CHECKS["C06"] = dict(
    text="TLC model-checks the token-bucket specification (capacity q_v+b, lazy refill, per-value override, consultation order of several rules) with the bound admitted <= q+b+q*(t-first)/d as an invariant; TLC behaviours (gaps of exactly d and d+1 ms, bursts, batches, two values, overrides incl. 0) and random histories with 1-4 values, positional/keyed parameters and 1-2 rules are executed through EntryBuilder on the real code; TLC validates every decision and the reported rule, so cross-talk between values or a wrong refill shows as a rejected trace",
    note="reference = lazily refilled bucket as the property describes; sequential requests; values within capacity; bounded scope for the exhaustive part",
-   technique="TLA+ spec HotspotQps.tla; TLC model checking; TLC-generated behaviours replayed into the code; TLC trace validation of recorded executions",
-   ref="DESIGN.md §6 C06")
+   technique="TLA+ spec HotspotQps.tla (arithmetic in TokenBucket.tla); TLC model checking; Apalache inductive invariant of the same arithmetic for unbounded parameters (TokenBucketInd.tla); TLC-generated behaviours replayed into the code; TLC trace validation of recorded executions",
+   ref="DESIGN.md §6 C06, §13.6")
 CHECKS["C07"] = dict(
    text="TLC model-checks Throttle.tla (flow throttling in ns as <<ms,sub>> pairs, hotspot throttling in ms per value): pass / queue / reject with bounded queueing; TLC behaviours with arrivals before/on/after the scheduled slot and random histories (rates 1..1000 per 100..10000 ms, max queueing 0..2000 ms, batches, bursts, 3 values) run through EntryBuilder::build under the virtual clock, where a sleep advances the clock by what the slot asked for; TLC validates each decision, the block type and that the caller was held at least until its scheduled instant; one wall-clock sleep binds the virtual sleep to the real one",
    note="virtual time; wait == max queueing time may go either way; 1 ns slack; bounded scope for the exhaustive part",
